@@ -9,7 +9,7 @@ use mos_core::formatting::{Alignment, BracePosition, Casing, FormattingOptions};
 use proptest::prelude::*;
 use serde::{Deserialize, Serialize};
 use serde_json::json;
-use std::collections::BTreeSet;
+use std::collections::{BTreeMap, BTreeSet};
 
 #[derive(Clone, Debug, Hash, PartialEq, Eq, Serialize, Deserialize)]
 pub struct Opts {
@@ -459,6 +459,75 @@ pub fn prop13(c: &Case, log: &mut CaseLog) -> Verdict {
     v13
 }
 
+/// `mos format` on a project on disk: every file is rewritten with the formatter's text for it, or - when a file has a
+/// parse error - nothing is touched and the exit status says so. Run from the project directory or from a sub-directory.
+pub fn prop_cli(c: &Case, log: &mut CaseLog) -> Verdict {
+    use crate::sut::cli::{run_mos, Scratch};
+    let r = render_case(c);
+    let mut project = r.project.clone();
+    let mut e = crate::gen::build::Ent::new(&c.trivia);
+    let broken = e.chance(1, 3);
+    if broken {
+        let names: Vec<String> = project.files.keys().cloned().collect();
+        let victim = names[e.below(names.len())].clone();
+        let bad = *e.pick(&["lda #\n", ".byte\n", "{ nop\n", "lda ($10\n", "zzbad bar\n"]);
+        let t = project.files.get_mut(&victim).unwrap();
+        if !t.ends_with('\n') {
+            t.push('\n');
+        }
+        t.push_str(bad);
+    }
+    let from_sub = e.chance(1, 3);
+    let sc = Scratch::new("c12");
+    let toml = format!("[build]\nentry = \"main.asm\"\n{}", c.opts.to_toml());
+    sc.write_project(&project, &toml);
+    sc.write("sub/keep.txt", b"x");
+    let before = sc.snapshot(".");
+    let dir = if from_sub { sc.dir.join("sub") } else { sc.dir.clone() };
+    let run = run_mos(&dir, &["--no-color", "-e", "Short", "format"]);
+    if run.timed_out {
+        return Verdict::Discard("mos killed by the watchdog".into());
+    }
+    let after = sc.snapshot(".");
+    log.label("cli");
+    log.label(if broken { "cli:parse-error" } else { "cli:clean" });
+    log.label_if(from_sub, "cli:from-sub-directory");
+    log.nontrivial = project.files.len() >= 2;
+    let text = || project.files.iter().map(|(n, t)| format!("--- {} ---\n{}", n, t)).collect::<Vec<_>>().join("\n");
+    let contents = |m: &BTreeMap<String, (Vec<u8>, u128)>| -> BTreeMap<String, Vec<u8>> { m.iter().map(|(k, v)| (k.clone(), v.0.clone())).collect() };
+    if broken {
+        if run.code == Some(0) {
+            return Verdict::fail("cli-format-succeeds-on-parse-error", format!("{}\nstdout: {}", text(), run.stdout));
+        }
+        if contents(&before) != contents(&after) {
+            let changed: Vec<&String> = after.keys().filter(|k| before.get(*k).map(|v| &v.0) != after.get(*k).map(|v| &v.0)).collect();
+            return Verdict::fail("cli-format-touches-files-on-parse-error", format!("{}\nchanged: {:?}\nstdout: {}", text(), changed, run.stdout));
+        }
+        return Verdict::Pass;
+    }
+    let expected = match format_project(&project, c.opts.to_mos()) {
+        Ok(Some(p)) => p,
+        _ => return Verdict::Discard("not formattable in-process".into()),
+    };
+    if run.code != Some(0) {
+        return Verdict::fail(if from_sub { "cli-format-fails|from-sub-directory" } else { "cli-format-fails" }, format!("{}\nexit {:?}\nstdout: {}\nstderr: {}", text(), run.code, run.stdout, run.stderr));
+    }
+    let got = contents(&after);
+    for (name, want) in &expected.files {
+        let have = got.get(name).map(|v| String::from_utf8_lossy(v).to_string());
+        if have.as_deref() != Some(want.as_str()) {
+            return Verdict::fail(if from_sub { "cli-format-differs-from-formatter|from-sub-directory" } else { "cli-format-differs-from-formatter" }, format!("{}\nfile {}\nexpected:\n{}\nfound:\n{:?}", text(), name, want, have));
+        }
+    }
+    // nothing else is created or changed
+    for (name, v) in &got {
+        if !expected.files.contains_key(name) && before.get(name).map(|b| &b.0) != Some(v) {
+            return Verdict::fail("cli-format-touches-other-files", format!("{}\nfile {}", text(), name));
+        }
+    }
+    Verdict::Pass
+}
+
 pub fn to_json(c: &Case) -> serde_json::Value {
     let r = render_case(c);
     json!({"entropy": c.entropy, "trivia": c.trivia, "opts": c.opts, "features": c.features, "files": r.project.files,
@@ -487,12 +556,18 @@ pub fn strategy(features: Vec<String>) -> impl Strategy<Value = Case> {
 pub const RULE: &str = "error-free generator programs (whole statement grammar: instructions, data, text, labels, scopes, constants, loops, conditionals, macros, segments; and two-file projects with imports of every form, parameter blocks and aliases) rendered with random trivia - block/line/nested/non-ASCII comments in every slot kind the grammar allows, CRLF, case flips - x formatter options (casings, brace position, indent 0-8, label margin 0-40, alignment, code margin 0-60). non-trivial = at least 2 comments; distinct by case hash";
 
 pub fn run_check12(ctx: &mut Ctx) {
-    ctx.rule = format!("{}. oracle C12: formatted text parses clean, same token skeleton (whitespace/comments stripped, case folded), same comments in order (modulo whitespace inside block comments), same segment bytes and diagnostic messages", RULE);
+    ctx.rule = format!("{}. oracle C12: formatted text parses clean, same token skeleton (whitespace/comments stripped, case folded), same comments in order (modulo whitespace inside block comments), same segment bytes and diagnostic messages; `mos format` in a scratch copy of a two-file project (run from the project directory or a sub-directory): every file holds the formatter's text afterwards, or - with a parse error in one of the files - exit status 1 and every file byte-identical", RULE);
     let n = ctx.tier.pick(14_000, 300_000);
     // (`label: instruction` on one line is part of C12's clean domain; for C13 it is the trigger of a recorded finding)
     ctx.campaign_parallel("clean-domain", n, 16, || strategy(vec!["label_and_instruction_on_one_line".to_string(), "comment_before_statement_same_line".to_string(), "config_pairs_on_one_line".to_string()]), prop12, to_json);
     let n3 = ctx.tier.pick(5000, 80_000);
     ctx.campaign_parallel("imports", n3, 16, || strategy(vec!["source:imports".to_string(), "label_and_instruction_on_one_line".to_string(), "comment_before_statement_same_line".to_string()]), prop12, to_json);
+    if crate::sut::cli::have_mos() {
+        let n4 = ctx.tier.pick(1600, 20_000);
+        ctx.campaign_parallel("cli", n4, 16, || strategy(vec!["source:imports".to_string(), "cli".to_string(), "label_and_instruction_on_one_line".to_string()]), prop_cli, to_json);
+    } else {
+        ctx.health(false, "mos binary not built (MOS_BIN)");
+    }
     for f in ["multiline_block_comment", "empty_line_comment"] {
         let n2 = ctx.tier.pick(1500, 30_000);
         ctx.campaign_parallel(&format!("feature:{}", f), n2, 8, || strategy(vec![f.to_string()]), prop12, to_json);
@@ -565,7 +640,9 @@ pub fn replay(ctx: &mut Ctx, case: &serde_json::Value) {
             return;
         }
     };
-    if ctx.id == "C12" {
+    if ctx.id == "C12" && c.features.iter().any(|f| f == "cli") {
+        ctx.replay_one(&c, prop_cli, case.clone());
+    } else if ctx.id == "C12" {
         ctx.replay_one(&c, prop12, case.clone());
     } else {
         ctx.replay_one(&c, prop13, case.clone());
